@@ -329,8 +329,42 @@ def cases(ctx):
   return out
 
 
+def retention_sweep(punit):
+  """Retention arithmetic through the real Archive.fromString: every precision 1..60 (and 1..3600 in seconds) in the
+  given unit x every duration 1..60 in every unit, plus bare point counts, against integer arithmetic."""
+  env.boot()
+  env.private_conf()
+  from carbon.storage import Archive
+  bad = []
+  n = 0
+  precs = list(range(1, 61)) + ([90, 120, 300, 600, 900, 1800, 3600] if punit in ('s', '') else [])
+  for pv in precs:
+    ps = '%d%s' % (pv, punit)
+    psec = pv * UNITS.get(punit or 's')
+    for dunit in ('', 's', 'm', 'h', 'd', 'w', 'y'):
+      for dv in list(range(1, 61)) + [100, 365, 1440]:
+        text = '%s:%d%s' % (ps, dv, dunit)
+        want = (psec, dv if dunit == '' else (dv * UNITS[dunit]) // psec)
+        n += 1
+        try:
+          a = Archive.fromString(text)
+          got = (a.secondsPerPoint, a.points)
+        except Exception as e:   # noqa
+          got = 'raised %r' % (e,)
+        if got != want and len(bad) < 3:
+          bad.append(('retention-arithmetic', 'retention %r read as %r; seconds-per-point and duration//precision give %r' % (text, got, want),
+                      {'retention': text}))
+  return n, bad
+
+
 def run(ctx):
   env.boot()
+  rn = 0
+  for n, bad in core.pmap(retention_sweep, ['', 's', 'm', 'h', 'd', 'w', 'y'], fresh=True):
+    rn += n
+    for key, what, rep in bad:
+      ctx.violation(key, what, rep)
+  ctx.add(retention_strings=rn)
   cs = core.seeded_order(cases(ctx), ctx.seed)
   nsh = 32
   res = core.pmap(shard, [cs[i::nsh] for i in range(nsh)], fresh=True)
@@ -364,6 +398,23 @@ def run(ctx):
 def replay(path):
   body = json.load(open(path))
   rep = body['replay']
+  if 'retention' in rep:
+    env.boot()
+    env.private_conf()
+    from carbon.storage import Archive
+    a = Archive.fromString(rep['retention'])
+    print('retention %r -> secondsPerPoint=%r points=%r' % (rep['retention'], a.secondsPerPoint, a.points))
+    prec, dur = rep['retention'].split(':')
+    import re
+    def secs(x):
+      m = re.match(r'^(\d+)([a-z]*)$', x)
+      return int(m.group(1)), m.group(2)
+    pv, pu = secs(prec)
+    dv, du = secs(dur)
+    want = (pv * UNITS.get(pu or 's'), dv if du == '' else dv * UNITS[du] // (pv * UNITS.get(pu or 's')))
+    ok = (a.secondsPerPoint, a.points) == want
+    print('oracle:', 'holds' if ok else 'VIOLATED (expected %r)' % (want,))
+    return 0 if ok else 1
   if 'race' in rep:
     from .. import thrx
     p = rep['race']
